@@ -30,7 +30,10 @@ impl Enum {
     #[verifier::external_body] pub fn identifier(&self) -> &str { unimplemented!() }
     #[verifier::external_body] pub fn kind(&self) -> &'static str { unimplemented!() }
 }
+/// `Enumerator::value()` (a two-arm match over the opaque EnumeratorValue): the enumerator's numeric value
+pub uninterp spec fn spec_value(v: EnumeratorValue) -> i128;
 impl Enumerator {
+    #[verifier::external_body] pub fn value(&self) -> (r: i128) ensures r == spec_value(self.value) { unimplemented!() }
     #[verifier::external_body]
     pub fn fields(&self) -> (r: Vec<&Field>)
         ensures match self.fields { Some(fs) => targets_of(fs@, r@), None => r@.len() == 0 },
@@ -61,7 +64,6 @@ pub open spec fn kinds(d: Seq<Diagnostic>) -> Seq<DiagnosticKind> { Seq::new(d.l
 #[verifier::external_body] pub fn validate_parameters(members: &[&Parameter], diagnostics: &mut Diagnostics) ensures d_prefix(old(diagnostics).0@, final(diagnostics).0@) { unimplemented!() }
 #[verifier::external_body] pub fn validate_dictionary(dictionary: &Dictionary, diagnostics: &mut Diagnostics) ensures d_prefix(old(diagnostics).0@, final(diagnostics).0@) { unimplemented!() }
 #[verifier::external_body] pub fn backing_type_bounds(enum_def: &Enum, diagnostics: &mut Diagnostics) ensures d_prefix(old(diagnostics).0@, final(diagnostics).0@) { unimplemented!() }
-#[verifier::external_body] pub fn enumerator_values_are_unique(enum_def: &Enum, diagnostics: &mut Diagnostics) ensures d_prefix(old(diagnostics).0@, final(diagnostics).0@) { unimplemented!() }
 impl Enumerator { #[verifier::external_body] pub fn contents(&self) -> Vec<&Field> { unimplemented!() } }
 impl Interface {
     #[verifier::external_body] pub fn operations(&self) -> Vec<&Operation> { unimplemented!() }
